@@ -579,7 +579,23 @@ impl Relations {
             .collect::<Vec<_>>();
         entries.sort();
         // TODO: preserve comments
-        Self::from(entries)
+        // Substitution variables are kept, after the sorted entries
+        let substvars = self.0.children().filter_map(Substvar::cast);
+        let mut builder = GreenNodeBuilder::new();
+        builder.start_node(ROOT.into());
+        let nodes = entries
+            .into_iter()
+            .map(|e| e.0)
+            .chain(substvars.map(|s| s.0));
+        for (i, node) in nodes.enumerate() {
+            if i > 0 {
+                builder.token(COMMA.into(), ",");
+                builder.token(WHITESPACE.into(), " ");
+            }
+            inject(&mut builder, node);
+        }
+        builder.finish_node();
+        Relations(SyntaxNode::new_root_mut(builder.finish()))
     }
 
     /// Iterate over the entries in this relations field
